@@ -32,10 +32,14 @@ BuildInputs == { [st |-> <<84,121>>, parts |-> [NoParts EXCEPT !.name = <<110>>,
 VARIABLES input
 vars == <<mvars, input>>
 Init == MInit /\ input = <<>>
+\* the built-in shapes go through the same machine (consistency of the step machine with ParseF / BuildF; no case is emitted)
+BuiltinInputs == ParseInputs \cup { PKG \o <<109,97,118,101,110,47,110>>, PKG \o <<80,121,80,105,47,65,95,46,98,64,49>>, PKG \o <<110,117,103,101,116,47,103,47,65,198>> }
 Begin == \/ \E s \in ParseInputs, shp \in Shapes : MBeginParse(s, shp) /\ input' = [entry |-> "parse", s |-> s]
+         \/ \E s \in BuiltinInputs, shp \in {Generic, Typed} : MBeginParse(s, shp) /\ input' = [entry |-> "parse", s |-> s]
          \/ \E b \in BuildInputs, shp \in Shapes : MBeginBuild(b.st, b.parts, shp) /\ input' = [entry |-> "build", st |-> b.st, parts |-> b.parts]
 Conv == MConv(front.type) /\ UNCHANGED input
-Finish == MFinish(parts, ApplyEdits(parts, shape.edits), shape.fin) /\ UNCHANGED input
+Finish == LET r == StepFinish(shape, st, parts, LowerTab) IN
+          MFinish(parts, IF r.ok THEN r.parts ELSE parts, r.ok) /\ UNCHANGED input
 \* the machine stops at "end": one call per behaviour
 Next == Begin \/ Conv \/ Finish
 Spec == Init /\ [][Next]_vars
@@ -43,7 +47,7 @@ Spec == Init /\ [][Next]_vars
 \* the step machine computes what the composed operators compute
 MachineIsParseF == pc = "end" =>
      IF entry = "parse" THEN out = ParseF(input.s, shape, LowerTab) ELSE out = BuildF(shape, input.st, input.parts, LowerTab)
-Emit == pc = "end" =>
+Emit == (pc = "end" /\ shape.kind = "test") =>
      PrintT(<<"CASE", ToJson([k |-> "shape", input |-> input, shape |-> [conv |-> shape.conv, fin |-> shape.fin, edits |-> shape.edits],
                                out |-> Outcome(out), nconv |-> nConv, nfin |-> nFin])>>)
 =============================================================================
